@@ -48,6 +48,11 @@ def run(prop, tier, seed):
             eps, profile = spec[0], spec[1]
             jobs = spec[2] if len(spec) > 2 else 1      # executor processes for slow episodes
             r.batch("%s-%s" % (m.FAMILY, name), m.TRACE_SPEC, eps, profile=profile, nontrivial=m.nontrivial, jobs=jobs)
+            if prop == "C12" and tier == "thorough" and profile == "verif" and os.environ.get("VERIF_NO_ASAN") is None:
+                # the same out-of-domain scripts under AddressSanitizer: memory errors that ub_checks cannot see
+                # (raw-pointer reads) also end the process, i.e. become `abort` events
+                r.batch("%s-%s-asan" % (m.FAMILY, name), m.TRACE_SPEC, eps[:4000], profile="asan", nontrivial=m.nontrivial,
+                        jobs=jobs)
         rules.append(m.RULE)
         assume += m.ASSUME
     return r.finish(assume, " | ".join(rules))
